@@ -134,6 +134,13 @@ pub fn name_strings() -> Vec<String> {
         for k in keywords(f.e()).into_iter().take(12) {
             v.push(k.to_string());
         }
+        // names that start with / consist of an atom prefix of some format
+        for p in atom_prefixes(f.e()) {
+            v.push(p.to_string());
+            v.push(format!("{}left", p));
+            v.push(format!("{}{}left", p, p));
+            v.push(format!("left{}", p));
+        }
     }
     v.sort();
     v.dedup();
